@@ -105,7 +105,36 @@ func timed(f func()) bool {
 
 // faultExec runs one history under one chooser and applies the oracle.
 // c03only restricts the oracle to the C03 statement.
-func faultExec(run *ev.Run, prop string, u *uni.U, gen *wh.CPGen, logs []wh.LogCfg, store string, mode faultMode, h faultHistory, c *choice.C, c03only bool) {
+// faultViews: the fault enumeration is one engine; each property's check owns
+// some of its oracles (the executions are the same, the reports differ).
+// C07 owns all of them; C03 has its own restricted oracle (c03only).
+var faultViews = map[string][]string{
+	"C01": {"split-view-under-fault"},
+	"C06": {"false-success", "state-changed-on-error"},
+	"C09": {"fault-free-mismatch", "suffix-fork-not-refused", "suffix-growth-refused", "wrong-verdict-under-fault", "accepted-under-fault"},
+	"C16": {"read-wrong-bytes", "read-logs-wrong", "read-fault-reported-as-not-found", "suffix-read", "read-failed-without-fault"},
+}
+
+func faultExec(run *ev.Run, view string, u *uni.U, gen *wh.CPGen, logs []wh.LogCfg, store string, mode faultMode, h faultHistory, c *choice.C) {
+	c03only := view == "C03"
+	prop := view
+	_ = prop
+	// report files a finding of the engine under the property whose view owns it.
+	report := func(sig, what string, rep map[string]any) {
+		if own, restricted := faultViews[view]; restricted {
+			ok := false
+			for _, pre := range own {
+				if strings.HasPrefix(sig, pre) {
+					ok = true
+				}
+			}
+			if !ok {
+				return
+			}
+		}
+		run.Report(sig, what, rep)
+	}
+	accepted := map[string][]wh.Meta{}
 	// Once an operation was found blocked on this store, every further
 	// execution would spend the same 30 s finding it again: the violation is
 	// reported, the rest of this store's enumeration is cut short.
@@ -219,7 +248,7 @@ func faultExec(run *ev.Run, prop string, u *uni.U, gen *wh.CPGen, logs []wh.LogC
 				}) {
 					markBlocked()
 					if !c03only {
-						run.Report(fmt.Sprintf("wedge store=%s connection-not-returned", storeKind(store)),
+						report(fmt.Sprintf("wedge store=%s connection-not-returned", storeKind(store)),
 							fmt.Sprintf("history %s, faults %v: after %s the pool's only connection was not returned within 30 s: every later operation blocks", h.Name, c.Trace(), after), replay(nil))
 					}
 					return true
@@ -228,7 +257,7 @@ func faultExec(run *ev.Run, prop string, u *uni.U, gen *wh.CPGen, logs []wh.LogC
 			return false
 		}
 		if !c03only {
-			run.Report(fmt.Sprintf("wedge store=%s after=%s open-handles=%d open-tx=%d", storeKind(store), after, open, tx),
+			report(fmt.Sprintf("wedge store=%s after=%s open-handles=%d open-tx=%d", storeKind(store), after, open, tx),
 				fmt.Sprintf("history %s, faults %v: after %s the witness left %d write handle(s) unclosed, %d transaction(s) and %d cursor(s) open: the next operation on a single-connection store blocks forever", h.Name, c.Trace(), after, open, tx, rows), replay(nil))
 		}
 		return true
@@ -254,7 +283,7 @@ func faultExec(run *ev.Run, prop string, u *uni.U, gen *wh.CPGen, logs []wh.LogC
 				active = false
 				markBlocked()
 				if !c03only {
-					run.Report(fmt.Sprintf("blocked store=%s op=read", storeKind(store)), fmt.Sprintf("history %s, faults %v: %s did not complete within 30 s (the store is wedged by an earlier outcome)", h.Name, c.Trace(), op.Label), replay(nil))
+					report(fmt.Sprintf("blocked store=%s op=read", storeKind(store)), fmt.Sprintf("history %s, faults %v: %s did not complete within 30 s (the store is wedged by an earlier outcome)", h.Name, c.Trace(), op.Label), replay(nil))
 				}
 				return
 			}
@@ -270,16 +299,16 @@ func faultExec(run *ev.Run, prop string, u *uni.U, gen *wh.CPGen, logs []wh.LogC
 			if err == nil {
 				if op.Logs {
 					if !sameSet(logsGot, pre.Logs) {
-						run.Report("read-logs-wrong", fmt.Sprintf("history %s faults %v: GetLogs returned %v, stored %v", h.Name, c.Trace(), logsGot, pre.Logs), replay(nil))
+						report("read-logs-wrong", fmt.Sprintf("history %s faults %v: GetLogs returned %v, stored %v", h.Name, c.Trace(), logsGot, pre.Logs), replay(nil))
 					}
 				} else if string(got) != pre.ByID[op.Req.LogID] {
-					run.Report("read-wrong-bytes", fmt.Sprintf("history %s faults %v: GetCheckpoint returned bytes that are not the stored checkpoint", h.Name, c.Trace()), replay(nil))
+					report("read-wrong-bytes", fmt.Sprintf("history %s faults %v: GetCheckpoint returned bytes that are not the stored checkpoint", h.Name, c.Trace()), replay(nil))
 				}
 			} else if faulted && status.Code(err) == codes.NotFound && !op.Logs && pre.ByID[op.Req.LogID] != "" {
-				run.Report("read-fault-reported-as-not-found store="+storeKind(store), fmt.Sprintf("history %s faults %v: a failing read of a log that holds a checkpoint was answered 'not found' (callers then treat the log as having no checkpoint)", h.Name, c.Trace()), replay(nil))
+				report("read-fault-reported-as-not-found store="+storeKind(store), fmt.Sprintf("history %s faults %v: a failing read of a log that holds a checkpoint was answered 'not found' (callers then treat the log as having no checkpoint)", h.Name, c.Trace()), replay(nil))
 			} else if !faulted {
 				if !(status.Code(err) == codes.NotFound && pre.ByID[op.Req.LogID] == "" && !op.Logs) {
-					run.Report("read-failed-without-fault", fmt.Sprintf("history %s: read %s failed without any fault: %v", h.Name, op.Label, err), replay(nil))
+					report("read-failed-without-fault", fmt.Sprintf("history %s: read %s failed without any fault: %v", h.Name, op.Label, err), replay(nil))
 				}
 			}
 			continue
@@ -302,7 +331,7 @@ func faultExec(run *ev.Run, prop string, u *uni.U, gen *wh.CPGen, logs []wh.LogC
 			active = false
 			markBlocked()
 			if !c03only {
-				run.Report(fmt.Sprintf("blocked store=%s op=update", storeKind(store)), fmt.Sprintf("history %s, faults %v: Update %q did not complete within 30 s (the store is wedged by an earlier outcome)", h.Name, c.Trace(), r.Label), replay(nil))
+				report(fmt.Sprintf("blocked store=%s op=update", storeKind(store)), fmt.Sprintf("history %s, faults %v: Update %q did not complete within 30 s (the store is wedged by an earlier outcome)", h.Name, c.Trace(), r.Label), replay(nil))
 			}
 			return
 		}
@@ -332,13 +361,27 @@ func faultExec(run *ev.Run, prop string, u *uni.U, gen *wh.CPGen, logs []wh.LogC
 				return "other"
 			}())
 		}
+		if out.Err == nil && !r.Meta.Broken && r.Meta.Branch != nil {
+			// C01's oracle under faults: everything ever RETURNED as accepted
+			// for a log lies on one history.
+			for _, p := range accepted[id] {
+				lo, hi := p, r.Meta
+				if lo.Size > hi.Size {
+					lo, hi = hi, lo
+				}
+				if (lo.Size == hi.Size && string(lo.Root) != string(hi.Root)) || !uni.IsPrefix(lo.Branch, int(lo.Size), hi.Branch, int(hi.Size)) {
+					report(sig("split-view-under-fault"), desc(fmt.Sprintf("the witness returned cosigned checkpoints %s@%d and %s@%d, which are not on one history", p.Branch.Name, p.Size, r.Meta.Branch.Name, r.Meta.Size)), replay(nil))
+				}
+			}
+			accepted[id] = append(accepted[id], r.Meta)
+		}
 		if c03only {
 			if out.Err != nil && !afterEffect {
 				if !post.Equal(pre) {
-					run.Report(sig("state-changed class=storage-failure"), desc("refused update changed the stored state"), replay(nil))
+					report(sig("state-changed class=storage-failure"), desc("refused update changed the stored state"), replay(nil))
 				}
 				if out.Bytes != nil && string(out.Bytes) != pre.ByID[id] {
-					run.Report(sig("bytes-with-refusal class=storage-failure"), desc("refusal returned bytes that are not the stored checkpoint"), replay(nil))
+					report(sig("bytes-with-refusal class=storage-failure"), desc("refusal returned bytes that are not the stored checkpoint"), replay(nil))
 				}
 			}
 			continue
@@ -347,7 +390,7 @@ func faultExec(run *ev.Run, prop string, u *uni.U, gen *wh.CPGen, logs []wh.LogC
 		// was acceptable from the state that was really stored.
 		if out.Err == nil {
 			if post.ByID[id] != string(out.Bytes) {
-				run.Report(sig("false-success"), desc("Update reported success but a following read does not return the checkpoint it returned"), replay(nil))
+				report(sig("false-success"), desc("Update reported success but a following read does not return the checkpoint it returned"), replay(nil))
 				continue
 			}
 			if exp.Class != wh.OK {
@@ -355,12 +398,12 @@ func faultExec(run *ev.Run, prop string, u *uni.U, gen *wh.CPGen, logs []wh.LogC
 				if stPre.Has && r.Old == 0 {
 					what = "treated a failed read of the previous checkpoint as 'no previous checkpoint' (trust on first use over an existing state)"
 				}
-				run.Report(sig("accepted-under-fault"), desc(what), replay(nil))
+				report(sig("accepted-under-fault"), desc(what), replay(nil))
 				continue
 			}
 			for k, v := range pre.ByID {
 				if k != id && post.ByID[k] != v {
-					run.Report(sig("other-log-changed"), desc("another log's state changed"), replay(nil))
+					report(sig("other-log-changed"), desc("another log's state changed"), replay(nil))
 				}
 			}
 			continue
@@ -370,17 +413,17 @@ func faultExec(run *ev.Run, prop string, u *uni.U, gen *wh.CPGen, logs []wh.LogC
 		if !post.Equal(pre) {
 			text, _, ok := uni.SplitNote([]byte(post.ByID[id]))
 			if !(afterEffect && exp.Class == wh.OK && ok && text == r.Meta.Text) {
-				run.Report(sig("state-changed-on-error"), desc("Update failed but the stored state changed"), replay(nil))
+				report(sig("state-changed-on-error"), desc("Update failed but the stored state changed"), replay(nil))
 				continue
 			}
 			run.Add("commit_reported_failed_after_effect", 1)
 		}
 		if !faulted {
 			if out.Class != exp.Class {
-				run.Report(sig("fault-free-mismatch"), desc(fmt.Sprintf("fault-free step answered %s (%v), model says %s", out.Class, out.Err, exp.Class)), replay(nil))
+				report(sig("fault-free-mismatch"), desc(fmt.Sprintf("fault-free step answered %s (%v), model says %s", out.Class, out.Err, exp.Class)), replay(nil))
 			}
 		} else if out.Class != wh.Other && out.Class != exp.Class {
-			run.Report(sig("wrong-verdict-under-fault"), desc(fmt.Sprintf("faulted step answered %s, model says %s or a storage error", out.Class, exp.Class)), replay(nil))
+			report(sig("wrong-verdict-under-fault"), desc(fmt.Sprintf("faulted step answered %s, model says %s or a storage error", out.Class, exp.Class)), replay(nil))
 		}
 	}
 	if c03only {
@@ -392,12 +435,12 @@ func faultExec(run *ev.Run, prop string, u *uni.U, gen *wh.CPGen, logs []wh.LogC
 		cur := e.Stored(id)
 		st, ok := wh.StateOf(gen, cur)
 		if !ok {
-			run.Report("suffix-foreign-state", fmt.Sprintf("history %s faults %v: store holds unknown bytes", h.Name, c.Trace()), replay(nil))
+			report("suffix-foreign-state", fmt.Sprintf("history %s faults %v: store holds unknown bytes", h.Name, c.Trace()), replay(nil))
 			continue
 		}
 		got, err := e.W.GetCheckpoint(id)
 		if st.Has && (err != nil || string(got) != string(cur)) || !st.Has && status.Code(err) != codes.NotFound {
-			run.Report("suffix-read", fmt.Sprintf("history %s faults %v: fault-free read after the faults failed: %v", h.Name, c.Trace(), err), replay(nil))
+			report("suffix-read", fmt.Sprintf("history %s faults %v: fault-free read after the faults failed: %v", h.Name, c.Trace(), err), replay(nil))
 		}
 		if !st.Has || st.Size == 0 || int(st.Size)+1 > u.N {
 			continue
@@ -412,11 +455,11 @@ func faultExec(run *ev.Run, prop string, u *uni.U, gen *wh.CPGen, logs []wh.LogC
 		var out wh.Outcome
 		if !timed(func() { out = e.Do(wh.Req{LogID: id, Old: st.Size, CP: cpF, Proof: fk.Proof(s, s+1), Meta: mF}) }) {
 			markBlocked()
-			run.Report(fmt.Sprintf("blocked store=%s op=suffix-update", storeKind(store)), fmt.Sprintf("history %s faults %v: the fault-free Update after the faults did not complete within 30 s (store wedged)", h.Name, c.Trace()), replay(nil))
+			report(fmt.Sprintf("blocked store=%s op=suffix-update", storeKind(store)), fmt.Sprintf("history %s faults %v: the fault-free Update after the faults did not complete within 30 s (store wedged)", h.Name, c.Trace()), replay(nil))
 			return
 		}
 		if out.Class != wh.BadProof {
-			run.Report("suffix-fork-not-refused got="+out.Class, fmt.Sprintf("history %s faults %v: after the faults a fork was answered %s (%v)", h.Name, c.Trace(), out.Class, out.Err), replay(nil))
+			report("suffix-fork-not-refused got="+out.Class, fmt.Sprintf("history %s faults %v: after the faults a fork was answered %s (%v)", h.Name, c.Trace(), out.Class, out.Err), replay(nil))
 		}
 		if wedged("suffix fork probe") {
 			return
@@ -424,11 +467,11 @@ func faultExec(run *ev.Run, prop string, u *uni.U, gen *wh.CPGen, logs []wh.LogC
 		cpG, mG := gen.Get(l, st.Branch, s+1, "plain")
 		if !timed(func() { out = e.Do(wh.Req{LogID: id, Old: st.Size, CP: cpG, Proof: st.Branch.Proof(s, s+1), Meta: mG}) }) {
 			markBlocked()
-			run.Report(fmt.Sprintf("blocked store=%s op=suffix-update", storeKind(store)), fmt.Sprintf("history %s faults %v: the fault-free growth after the faults did not complete within 30 s (store wedged)", h.Name, c.Trace()), replay(nil))
+			report(fmt.Sprintf("blocked store=%s op=suffix-update", storeKind(store)), fmt.Sprintf("history %s faults %v: the fault-free growth after the faults did not complete within 30 s (store wedged)", h.Name, c.Trace()), replay(nil))
 			return
 		}
 		if out.Class != wh.OK {
-			run.Report("suffix-growth-refused got="+out.Class, fmt.Sprintf("history %s faults %v: after the faults honest growth %d->%d was answered %s (%v)", h.Name, c.Trace(), s, s+1, out.Class, out.Err), replay(nil))
+			report("suffix-growth-refused got="+out.Class, fmt.Sprintf("history %s faults %v: after the faults honest growth %d->%d was answered %s (%v)", h.Name, c.Trace(), s, s+1, out.Class, out.Err), replay(nil))
 		}
 		if wedged("suffix") {
 			return
@@ -497,6 +540,9 @@ func faultHistories(u *uni.U, gen *wh.CPGen, la, lb wh.LogCfg) []faultHistory {
 			up(req(la, m, 4, 6, 3, "bad proof A")), up(req(la, m, 4, 6, 4, "growth A 4->6"))}},
 		{Name: "fork-as-first-use", Prefix: []wh.Req{tofuA}, Ops: []faultOp{
 			up(req(la, f, 0, 4, 0, "fork F@4 submitted as first use (old=0)")), up(req(la, f, 0, 6, 0, "fork F@6 submitted as first use (old=0)")), rd(la)}},
+		{Name: "growth-then-fork-from-the-same-size", Prefix: []wh.Req{tofuA}, Ops: []faultOp{
+			up(req(la, m, 4, 6, 4, "growth A 4->6")), up(req(la, u.Forks[1], 4, 6, 4, "fork F4@6 from 4 (consistent with main@4, not with main@6; stale if the growth was stored)")), rd(la),
+			up(req(la, m, 4, 6, 4, "growth A 4->6 again (stale / refused if something else was stored)"))}},
 		{Name: "two-logs", Prefix: []wh.Req{tofuA}, Ops: []faultOp{
 			up(req(lb, m, 0, 3, 0, "first use B main@3")), up(req(la, m, 4, 5, 4, "growth A 4->5")), {Logs: true, Label: "list logs"}, up(req(lb, m, 3, 5, 3, "growth B 3->5"))}},
 	}
@@ -514,7 +560,8 @@ func c07(tier string) int {
 
 // runFaults enumerates fault placements over all histories, stores and levels.
 func runFaults(run *ev.Run, prop, tier string, c03only bool) {
-	u := uni.New(ev.Seed(), 9, []int{0})
+	u := uni.New(ev.Seed(), 9, []int{0, 4})
+	_, view := faultViews[prop]
 	gen := wh.NewCPGen(u)
 	la := wh.LogCfg{Origin: logA(), Key: u.K1}
 	lb := wh.LogCfg{Origin: logB(), Key: u.K2}
@@ -529,7 +576,7 @@ func runFaults(run *ev.Run, prop, tier string, c03only bool) {
 	if tier == "thorough" {
 		b1, b2 = 3, 3
 	}
-	if c03only {
+	if c03only || view {
 		b1, b2 = 1, 1
 	}
 	after := !c03only
@@ -538,7 +585,7 @@ func runFaults(run *ev.Run, prop, tier string, c03only bool) {
 	for _, cf := range cfgs {
 		for _, h := range hs {
 			st, err := choice.Explore(cf.bound, func(c *choice.C) {
-				faultExec(run, prop, u, gen, []wh.LogCfg{la, lb}, cf.store, cf.mode, h, c, c03only)
+				faultExec(run, prop, u, gen, []wh.LogCfg{la, lb}, cf.store, cf.mode, h, c)
 				if len(c.Trace()) > 0 {
 					run.Distinct(fmt.Sprintf("%s|%s|%s|%v", cf.store, cf.mode.Level, h.Name, c.Trace()))
 					if run.Get("fault_samples") < 6 && c.Deviations() == cf.bound {
@@ -558,7 +605,11 @@ func runFaults(run *ev.Run, prop, tier string, c03only bool) {
 	}
 	run.Add("evaluations", total)
 	run.Add("fault_executions", total)
+	if view {
+		run.Set("fault_leg", fmt.Sprintf("the C07 fault enumeration (7 histories x {in-memory, SQLite} x {interface-level, SQL-driver-level} faults, every single fault placement, fault-free suffix) with the oracles this property owns: %v", faultViews[prop]))
+		return
+	}
 	if !c03only {
-		run.Set("rule", "for each of 6 histories (first use; growth/refresh/growth; refresh first; every refused kind then growth; a fork submitted as first use over an existing state; two logs) x {in-memory, SQLite single connection} x {interface-level faults on WriteOps / GetLatest (plain, gRPC Unavailable, gRPC Internal) / Set (before effect, after effect) / Close / ReadOps / Logs; SQL-driver-level faults on begin, prepare, query, next, exec, commit (rolled back / committed), rollback}: every placement of up to <deviation_bound> faults (positions discovered dynamically, deviation-bounded DFS), each execution followed by a fault-free suffix (read, refused fork, honest growth). distinct_nontrivial = distinct (store, level, history, fault placement) with at least one fault")
+		run.Set("rule", "for each of 7 histories (first use; growth/refresh/growth; refresh first; every refused kind then growth; a fork submitted as first use over an existing state; growth then a fork from the same old size; two logs) x {in-memory, SQLite single connection} x {interface-level faults on WriteOps / GetLatest (plain, gRPC Unavailable, gRPC Internal) / Set (before effect, after effect) / Close / ReadOps / Logs; SQL-driver-level faults on begin, prepare, query, next, exec, commit (rolled back / committed), rollback}: every placement of up to <deviation_bound> faults (positions discovered dynamically, deviation-bounded DFS), each execution followed by a fault-free suffix (read, refused fork, honest growth). distinct_nontrivial = distinct (store, level, history, fault placement) with at least one fault")
 	}
 }
